@@ -30,6 +30,7 @@ class VClock(object):
     def __init__(self):
         self.t = 1000.0
         self.calls = 0
+        self.sleeps = []                 # (when, how long) of every sleep() call
 
     def time(self):
         self.calls += 1
@@ -42,6 +43,7 @@ class VClock(object):
         self.calls += 1
         if self.calls > self.LIMIT:
             raise HorizonHit('clock')
+        self.sleeps.append((self.t, max(0.0, d or 0.0)))
         self.t += max(0.0, d or 0.0)
 
 
